@@ -30,7 +30,7 @@ func (c02) RequiredBuckets(tier string) []string {
 		for _, a := range []string{"before", "at-start", "inside", "at-end", "after"} {
 			out = append(out, op+"|align:"+a)
 		}
-		out = append(out, op+"|guest:empty", op+"|guest:plain", op+"|guest:features", op+"|host:genbank", op+"|host:basic")
+		out = append(out, op+"|guest:empty", op+"|guest:empty-with-features", op+"|guest:plain", op+"|guest:features", op+"|host:genbank", op+"|host:basic")
 	}
 	out = append(out, "cmd:insert", "cmd:insert -e", "cmd:infix", "stream:records-independent")
 	return out
@@ -103,6 +103,9 @@ func (m c02) check(c *fw.Ctx, k *insCase) {
 	switch {
 	case n == 0:
 		c.Bucket(op + "|guest:empty")
+		if len(k.guestTab) > 0 {
+			c.Bucket(op + "|guest:empty-with-features")
+		}
 	case len(k.guestTab) == 0:
 		c.Bucket(op + "|guest:plain")
 	default:
@@ -123,6 +126,7 @@ func (m c02) check(c *fw.Ctx, k *insCase) {
 		c.ViolateX(op+":"+panicClass(site, val), enc, "no panic", fmt.Sprint(val), stack, nil)
 		return
 	}
+	c.Hold(enc, func() string { return heldSeq(res) })
 	want := append(append(append([]byte{}, k.hostB[:k.i]...), k.guestB...), k.hostB[k.i:]...)
 	if !bytes.Equal(res.Bytes(), want) {
 		c.Violate(op+":residues", enc, string(want), string(res.Bytes()))
@@ -241,6 +245,10 @@ func (m c02) Run(c *fw.Ctx) {
 		if n > 0 && r.Intn(2) == 0 {
 			og := gen.LocOpt{L: n, MaxParts: 3, MaxDepth: 2, Ambiguous: true, Sites: false}
 			gtab = gen.RandTable(r, 1+r.Intn(3), og, "g", 10)
+		}
+		if n == 0 && r.Intn(2) == 0 {
+			// an empty guest still carries its features (an annotated site).
+			gtab = []gts.Feature{{Key: "misc_feature", Loc: gts.Between(0), Props: gts.Props{{"label", "g0"}, {"note", "site of an empty guest"}}}}
 		}
 		i := r.Intn(L + 1)
 		if len(tab) > 0 && r.Intn(2) == 0 {
